@@ -25,6 +25,39 @@ PROPS = {
     ),
 }
 
+C02_CONTRACTS = ["generate_multipart", "judge_if_range",
+                 "wsgi.handle_all", "wsgi.handle_single_range", "wsgi.handle_several_ranges", "wsgi.FileResponse.__call__",
+                 "asgi.fake_sendfile", "asgi.zerocopy_sendfile", "asgi.handle_all", "asgi.handle_single_range",
+                 "asgi.handle_several_ranges", "asgi.FileResponse.__call__", "parse_range"]
+
+PROPS["C02"] = dict(
+    modules=["common", "hdrs", "c03", "c02"],
+    contracts=C02_CONTRACTS,
+    canary_contracts=["generate_multipart", "wsgi.handle_all", "asgi.fake_sendfile"],
+    refute={"quick": [2], "thorough": [1, 2, 3]},
+    native="c02",
+    level="proof",
+    trusted=["A-py-1", "A-solver", "A-pyvc"],
+    level_text="Every function between the request and the emitted bytes is under contract: the closed-form multipart "
+               "Content-Length equals the bytes of the body it describes (sum over parts of header+slice+LF plus the closing "
+               "line, for any number of ranges); the three WSGI chunk readers and the ASGI emulated sendfile (both loops) and "
+               "the zero-copy sendfile emit exactly the requested slice (every file chunk starts where the previous ended, "
+               "declared length == emitted length, HEAD == same headers + empty body), for all sizes, chunk sizes and "
+               "ranges; the dispatch honours Range only when If-Range is absent or equals the ETag / Last-Modified value "
+               "and hands the handlers ranges that satisfy their preconditions (C03's postcondition); 400/416 open no "
+               "file and 416 carries Content-Range */size. Obligations are generated from the ASTs on every run and "
+               "discharged by z3/cvc5; an end-to-end run on real temp files stands beside it (bounded).",
+    level_note="Trusted: file model (A-fs-1 size unchanged between stat and read; A-fs-2 regular-file reads are not short; "
+               "A-zc zero-copy server semantics); the server's send/start_response do not raise (A-server); list_headers "
+               "returns the header map's items (A-list-headers; its body is checked bounded in C05/C13); "
+               "StatusStringMapping[c] is the table entry (A-status-table); etag/httpdate uninterpreted (A-sha-1, A-fmt-1); "
+               "random boundary alphabet (A-random); run_in_threadpool(f,*a) == f(*a) (A-conc-1); fold extensionality "
+               "(A-fold-ext); await erased (no interleaving); closing of the file object by `with` is not modelled (WSGI). "
+               "The two tiny event builders send_http_start/send_http_body and the exception constructors are executed inline.",
+    technique="deductive verification: contracts + ghost emission trace on the real handlers, loop invariants, SMT (z3/cvc5)",
+    explanation="",
+)
+
 NOT_APPLICABLE = {
     "C06": "quantifies over schedules/interleavings (relay thread vs consumer vs closer, asyncio tasks vs ping timer) and is a "
            "bounded-liveness claim; contracts over a sequential, await-erased semantics cannot express an interleaving and "
